@@ -52,8 +52,12 @@ def run_family2(R, tier, rng, counter):
             extra = [x for x in range(int(max(np.iinfo(kdt).min, -40)), int(min(np.iinfo(kdt).max, 90))) if x not in pool]
             pool = sorted(set(pool) | set(rng.sample(extra, min(len(extra), 40))))
             k = rng.randint(12, min(30, len(pool)))
+        if trial % 16 == 7 and np.iinfo(kdt).bits == 8:      # so many keys that the default modulus 2n-1 is beyond the key dtype's range
+            pool = list(range(int(np.iinfo(kdt).min), int(np.iinfo(kdt).max) + 1)); k = rng.randint(66, 110)
         keys = rng.sample(pool, k)
         mod = rng.choice([None, 1, 2, 3, k, 2 * k - 1, 7])
+        if trial % 16 == 7 and np.iinfo(kdt).bits == 8: mod = None
+        elif trial % 8 == 5 and np.iinfo(kdt).bits < 64: mod = int(np.iinfo(kdt).max) + rng.choice([1, 2, 73])     # an explicit modulus beyond the key dtype's range
         fl = (not counter) and rng.random() < .4
         mkv = (lambda: rng.choice([0.5, -1.75, 2.0, 0.25, 3.5, 1e10])) if fl else (lambda: rng.randint(-5, 70000))
         scalar = rng.choice([None, 0, 5]) if not counter else rng.choice([None, 0, 0, 5])
@@ -176,13 +180,22 @@ def run_family2(R, tier, rng, counter):
                 if ok: model = {x: y + v for x, y in model.items()}
                 steps.append(f"t+={v}"); R.record(lab, ok, 1, 1, nt, "iadd")
             elif kind == "eq" and not counter:
-                if isinstance(getattr(t, "_values", None), (int, float)): continue
                 same = rng.random() < .5
                 v2 = [model[x] for x in keys]
                 if not same: v2[rng.randrange(k)] += 1
-                def eq():
-                    o = HashTable(arrk(keys), np.array(v2, dtype=vdt), mod=mod); return bool(t == o)
-                R.record(lab + f" =={v2}", guarded(eq), same, same, nt, "eq", py=f"{desc}; {'; '.join(steps)}; t == HashTable(keys, {v2})")
+                if isinstance(getattr(t, "_values", None), (int, float)):
+                    if not same: continue
+                else:
+                    def eq():
+                        o = HashTable(arrk(keys), np.array(v2, dtype=vdt), mod=mod); return bool(t == o)
+                    R.record(lab + f" =={v2}", guarded(eq), same, same, nt, "eq", py=f"{desc}; {'; '.join(steps)}; t == HashTable(keys, {v2})")
+                # the same dictionary built from the keys in another order and with another modulus (other buckets, other order inside the buckets)
+                perm = list(range(k)); rng.shuffle(perm)
+                mod2 = rng.choice([mod, 1, 2, 3, 7, None])
+                def eq2():
+                    o = HashTable(arrk([keys[i] for i in perm]), np.array([v2[i] for i in perm], dtype=vdt), mod=mod2); return [bool(t == o), bool(o == t)]
+                R.record(lab + f" ==permuted{v2} mod2={mod2}", guarded(eq2), [same, same], [same, same], nt, "eq/other-layout",
+                         py=f"{desc}; {'; '.join(steps)}; t == HashTable({[keys[i] for i in perm]}, {[v2[i] for i in perm]}, mod={mod2})")
             elif kind == "items":
                 exp = sorted([key(a), key(b)] for a, b in model.items())
                 R.record(lab + " items", guarded(lambda: sorted([key(a), key(b)] for a, b in t.items())), exp, exp, nt, "items")
@@ -191,6 +204,9 @@ def run_family2(R, tier, rng, counter):
                 s = [rng.choice(keys + keys + absent_in) for _ in range(rng.randint(0, 9))]
                 vs = q_variants(s) if s else [("kdt", lambda: arrk(s))]
                 vn, mks = rng.choice(vs)
+                if absent_out and rng.random() < .35:       # samples beyond the key dtype's range (congruent to keys modulo 2^bits), as an int64 array: not keys
+                    s = s + [rng.choice(absent_out) for _ in range(rng.randint(1, 3))]; rng.shuffle(s)
+                    vn, mks = "i64-out-of-range", (lambda s=s: np.array(s, dtype=np.int64))
                 ok = guarded(lambda: t.count(mks()) or 1)
                 if ok:
                     for x in s:
